@@ -256,7 +256,9 @@ func (vc *FnVC) call(c ssa.CallInstruction, val *ssa.Call) {
 		for i, r := range ct.Ensures {
 			tv, err := qenv.tr(r.E)
 			if err != nil {
-				panic(unsupported{fmt.Sprintf("call %s ensures#%d: %v", name, i+1, err)})
+				// a postcondition that mentions the callee's locals is not visible to callers: assume less
+				vc.warn("call %s: ensures#%d not usable here (%v)", name, i+1, err)
+				continue
 			}
 			vc.assume(vc.b(), tv.t)
 		}
@@ -778,6 +780,21 @@ func (vc *FnVC) builtin(b *ssa.Builtin, cc *ssa.CallCommon, val *ssa.Call) {
 		vc.cur = vc.applyCallGhostsX("recover", nil, []TV{{t: t, ty: tAny}}, vc.cur, nil)
 	case "print", "println":
 	case "close":
+		// closing a channel is an addressable site ("call close#k ...")
+		ord := 1
+		for _, blk := range vc.fn.Blocks {
+			for _, in := range blk.Instrs {
+				if c, ok := in.(ssa.CallInstruction); ok && in.Pos() < cc.Pos() {
+					if bi, ok := c.Common().Value.(*ssa.Builtin); ok && bi.Name() == "close" {
+						ord++
+					}
+				}
+			}
+		}
+		vc.callOrd["close"] = ord
+		args := []TV{{t: vc.val(cc.Args[0]), ty: cc.Args[0].Type()}}
+		vc.siteAsserts("close", ord, vc.cur, args, cc.Pos())
+		vc.cur = vc.applyCallGhostsX("close", args, nil, vc.cur, nil)
 	case "min", "max":
 		a, c := vc.val(cc.Args[0]), vc.val(cc.Args[1])
 		op := "<="
